@@ -212,8 +212,10 @@ PROPS = {
         "runs": [
             {"family": "rep", "flags": [], "quick": {"cases": 400, "max_len": 25}, "thorough": {"cases": 20000, "max_len": 60}},
             {"family": "hist", "flags": ["--conflicts"], "quick": {"cases": 120, "max_len": 30}, "thorough": {"cases": 4000, "max_len": 30}},
+            # "a concurrent edit elsewhere does not bring it back" also needs the editing API to record only valid operations
+            {"family": "task", "flags": [], "quick": {"cases": 150, "max_len": 40}, "thorough": {"cases": 5000, "max_len": 80}},
         ],
-        "judge_preds": ["expire", "orderindep", "converged"],
+        "judge_preds": ["expire", "orderindep", "converged", "api-valid"],
         "nontrivial": lambda imp, ops: any(l.startswith("expire ok ") and l != "expire ok 0" for l in imp),
         "rule": REP_RULE + "; statuses x modification times (now-179d, -181d, -200..1200d, future, missing, non-numeric, empty, out of i64 / chrono range, '+5'); "
                 "the +-2 s window around now-180d is not generated (Utc::now() cannot be injected); propagation: conflict groups (delete vs concurrent "
@@ -271,5 +273,25 @@ PROPS = {
         "rule": TASK_RULE + "; non-trivial = at least three mutator calls and a commit; distinct by SHA-1",
         "trusted_base": TB_COMMON + ["Utc::now() is read by the harness inside the same second as the mutator (the harness waits when the clock is within 150 ms of a second boundary)"],
         "assumptions": ["a deleted TaskData is dropped by the caller (documented)", "create_task twice for one new uuid without a commit in between records two Creates (the replica cannot know): not generated as a violation"],
+    },
+    "C13": {
+        "module": "TcVerif.Props.C13",
+        "theorems": ["Tc.Crypto.unseal_seal", "Tc.Crypto.seal_layout", "Tc.Crypto.aad_layout", "Tc.Crypto.unseal_rejects_short",
+                     "Tc.Crypto.unseal_rejects_version", "Tc.Crypto.unseal_accepts_only_matching_tag", "Tc.Crypto.aeadOpen_seal",
+                     "Tc.Crypto.C13_facts_match_docs", "Tc.Crypto.envVersion_one", "Tc.Crypto.appId_one"],
+        "leanchecker_modules": [],
+        "runs": [
+            {"family": "seal", "flags": [], "quick": {"cases": 3, "max_len": 6}, "thorough": {"cases": 12, "max_len": 20, }},
+        ],
+        "judge_preds": ["tamper", "roundtrip", "layout", "leak", "nonce"],
+        "nontrivial": lambda imp, ops: sum(1 for l in ops if l.startswith("TAMPER")) >= 100,
+        "rule": "per case one (secret, salt) pair (fixed 'secret', random bytes, empty secret; 16 random salt bytes or a client-id uuid) and several payloads (empty, 1 byte, "
+                "a history segment, all 256 byte values, non-UTF-8, 200 bytes) with random and nil version ids: the real Cryptor seals (hook) and Lean — deriving the key "
+                "itself with the extracted iteration count — opens; Lean seals with chosen nonces and the real Cryptor opens; every single-byte flip (bit 0; all 8 bits in "
+                "the thorough tier), every truncation, one appended byte, two wrong version ids and a key from a different secret must be rejected by both; no 8-byte window "
+                "of a payload occurs in its envelope; all nonces distinct; non-trivial = at least 100 tampered inputs in the case; distinct by SHA-1",
+        "trusted_base": TB_COMMON + ["ChaCha20-Poly1305 is a secure AEAD and PBKDF2-HMAC-SHA256 a sound KDF (Lean proves format, round trip and accept-only-if-the-tag-matches, not unforgeability or secrecy)",
+                                     "the OS random number generator yields fresh nonces (checked for distinctness only)"],
+        "assumptions": ["partial: cryptographic strength is not a theorem; that each remote backend stores only sealed bytes bound to the right version id is checked in the backend families (C08)"],
     },
 }
